@@ -79,15 +79,15 @@ confirmed all of that in a fresh worktree. They live in `seeded/<id>/`
 the repository and runs the property's quick check against that copy
 (`VERIF_REPO`).
 
-Seventeen rounds were run, one change per property and round (a: first idea; b: "a
+Eighteen rounds were run, one change per property and round (a: first idea; b: "a
 different mechanism"; c: "a third mechanism: interactions, boundaries,
 asymmetries"; d: told the earlier changes, "what a maintainer would plausibly do
 next"; e: "a trigger that somebody generating random templates and data would
 not think of"; f: told the earlier triggers as well, "a different kind of
 trigger"; g: "attack a clause of the statement none of the earlier ones
-attacked"; h: "a clause, construct or count none of them used"; i: told the functions the earlier changes edited as well, "a different mechanism with a different kind of trigger, an API entry point or configuration not yet used"; j: the same, pointed at the dimensions of each property's quantifier; k: given the property's code anchors and asked for a change there that shows in a single sequential call; l: asked for changes whose effect depends on the way the library is driven - several loads, reused data, changed working directory, re-configuration; two of the twenty were not kept because what they break lies outside the property as stated, see seeded/dropped/README.md; m: asked for changes that show only at scale - long runs, many elements, deep nesting - or with unusual Go values; n: asked for changes that show only for a combination of two or three language features that each work alone; o: asked for changes whose trigger lies in how the template text is written - white space, line ends, quotes, comments, redundant parentheses, unusual but legal spellings; p: asked for changes that show only on a failing path - what is reported, which fault wins, that an error comes without output, what a failed call leaves behind; q: asked for tidy-ups with a slip - merged helpers, a library call with slightly different semantics, a simplified condition; one of the twenty was not kept, see seeded/dropped/README.md). The later rounds were deliberately adversarial towards a
+attacked"; h: "a clause, construct or count none of them used"; i: told the functions the earlier changes edited as well, "a different mechanism with a different kind of trigger, an API entry point or configuration not yet used"; j: the same, pointed at the dimensions of each property's quantifier; k: given the property's code anchors and asked for a change there that shows in a single sequential call; l: asked for changes whose effect depends on the way the library is driven - several loads, reused data, changed working directory, re-configuration; two of the twenty were not kept because what they break lies outside the property as stated, see seeded/dropped/README.md; m: asked for changes that show only at scale - long runs, many elements, deep nesting - or with unusual Go values; n: asked for changes that show only for a combination of two or three language features that each work alone; o: asked for changes whose trigger lies in how the template text is written - white space, line ends, quotes, comments, redundant parentheses, unusual but legal spellings; p: asked for changes that show only on a failing path - what is reported, which fault wins, that an error comes without output, what a failed call leaves behind; q: asked for tidy-ups with a slip - merged helpers, a library call with slightly different semantics, a simplified condition; one of the twenty was not kept, see seeded/dropped/README.md; r: asked for changes in the low-level packages - token, utils, object, config, ctx, fail, ast - with lexer, parser and evaluator untouched; two of the twenty were not kept). The later rounds were deliberately adversarial towards a
 generator-based harness, and the share of changes missed at first rose
-accordingly (a-c: 17 of 56, d: 11 of 20, e: 15 of 19, f: 16 of 20, g: 11 of 20, h: 15 of 20, i: 17 of 20, j: 16 of 20, k: 9 of 20, l: 16 of 18, m: 17 of 20, n: 12 of 20, o: 10 of 20, p: 13 of 20, q: 16 of 19) - which is
+accordingly (a-c: 17 of 56, d: 11 of 20, e: 15 of 19, f: 16 of 20, g: 11 of 20, h: 15 of 20, i: 17 of 20, j: 16 of 20, k: 9 of 20, l: 16 of 18, m: 17 of 20, n: 12 of 20, o: 10 of 20, p: 13 of 20, q: 16 of 19, r: 12 of 18) - which is
 the point of the exercise: every miss names an input class the generators did
 not reach. Result: **%d seeded changes,
 %d detected by the quick tier as it stands%s.** %d of them were *missed* by the
